@@ -1,7 +1,7 @@
 (* Proofs about model/Framing.v: chunking independence of the incremental msgio reader, frame
    round trips, StreamMsg / Status round trips, rejection of frames without a oneof member. *)
 From Coq Require Import String List NArith ZArith Bool Lia Arith.
-From MevVerif Require Import lib.Bytes lib.Varint gen.Generated model.Framing
+From MevVerif Require Import lib.Bytes lib.Varint gen.Generated model.Framing check.Check_C13
   proofs.Bytes_proofs proofs.Varint_proofs.
 Import ListNotations.
 Open Scope N_scope.
@@ -779,3 +779,32 @@ Example ex_oversized :
   let cs := [frame (x "0a00"); x "00800001"; x "0a00"] in
   out (feed_chunks cs) = [x "0a00"] /\ dead (feed_chunks cs) = true.
 Proof. vm_compute. split; reflexivity. Qed.
+
+(* ---------------------------------------------------------------------------------------- *)
+(* the property checker of check/Check_C13.v is consistent with the model: an observation that
+   agrees with the model's prediction for a frame never trips the frame-level clauses
+   (neither-accepted, error-as-data), and the model's own reading of a written item satisfies
+   the per-item expectation used for honest sessions *)
+Lemma agreeing_read_no_frame_violation fr o :
+  readmsg_agrees fr o = true -> frame_clause fr 0 o = [].
+Proof.
+  unfold readmsg_agrees, frame_clause. cbn [N.eqb].
+  destruct (read_msg fr); try reflexivity; destruct o; try discriminate; reflexivity.
+Qed.
+
+Lemma neither_clause_complete fr o :
+  read_msg fr = RNeither -> accepted_as_data o = true -> frame_clause fr 0 o = ["neither-accepted"%string].
+Proof. intros H Ha. unfold frame_clause. cbn [N.eqb]. rewrite H, Ha. reflexivity. Qed.
+
+Lemma status_expectation_met s all :
+  st_code s <> 0%Z ->
+  expect_item all (WStatus s) (OStatus (st_code s) (st_msg s) (any_pairs s)) = None.
+Proof.
+  intros Hn. unfold expect_item. cbn [status_of_wop].
+  destruct (Z.eqb_spec (st_code s) 0); [contradiction|].
+  unfold status_matches. rewrite Z.eqb_refl, bytes_eqb_refl. cbn [andb].
+  assert (E : forall l, list_eqb pair_eqb l l = true).
+  { induction l as [|[a b] l IH]; [reflexivity|]. cbn [list_eqb]. unfold pair_eqb at 1. cbn [fst snd].
+    rewrite !bytes_eqb_refl, IH. reflexivity. }
+  rewrite E. reflexivity.
+Qed.
